@@ -189,12 +189,16 @@ def generate(rng, n, tier="quick"):
     for k in range(max(20, n // 10)):
         r = rng.fork("thmh%d" % k)
         L, R = thm_left(r), thm_right(r)
-        src = L + "{{h 1}}" + R
+        # … and of C18.unknown_named_helper_points_at_the_tag: the same for EVERY identifier as the helper's name
+        from .C02 import ident_name
+        hname = "h" if k % 2 == 0 else ident_name(r)
+        src = L + "{{" + hname + " 1}}" + R
         line, col = line_col(src, len(L))
         nm = r.pick(["main", "dir/t.hbs", "\u00e9"])
         c = session({"strict": r.chance(0.5), "escape": "none"}, [(nm, src)], {"api": "render_to_write", "name": nm}, {"w": 1})
         c["id"] = "C18-thmh%04d" % k
-        out.append((c, {"name": nm, "line": line, "col": col, "reason": "HelperNotFound", "tag": "{{h 1}}", "where": "thm", "chain": False, "written": L}))
+        out.append((c, {"name": nm, "line": line, "col": col, "reason": "HelperNotFound", "tag": "{{" + hname + " 1}}", "where": "thm", "chain": False, "written": L,
+                        "payload": hname}))
     # compile errors: name and a position inside the source
     for k, (src, reason) in enumerate([("a\n{{#if x}}", "InvalidSyntax"), ("{{#if x}}\n{{/each}}", "MismatchingClosedHelper"),
                                        ("é\n {{foo 1.}}", "InvalidParam"), ("{{#*inline \"a\"}}{{/x}}", "MismatchingClosedDecorator")]):
